@@ -16,6 +16,26 @@ CHECKS = {
                 technique="exhaustive small-scope enumeration of cost tables x switching costs against brute force over all K^T sequences (interpreted and JIT kernel)",
                 text="Every cost table over small integer alphabets up to T*K<=8 (+5x2; thorough T*K<=12) x every switching cost in the menu is run through the real kernel, interpreted and JIT-compiled, and compared exactly with brute force over all K^T sequences. Bounded-exhaustive: complete below the bound, silent above it.",
                 note="trusted: NumPy integer-valued float arithmetic is exact; the brute-force oracle; inputs above the size bound and non-integer costs are not covered here (C09/C07 cover real-valued tables by objective comparison)"),
+    "C09": dict(engine=E2, cat="model_checking", ref="§3.2, §4 C09",
+                technique="explicit-state model of the main loop (fresh-state transition table) + conformance replay of every trace against the real fit_stacked_data under scripted initial labelling / donor draw / pool",
+                text="Every initial labelling (K^T') x iteration limit x donor script within the deviation bound is run through the real main loop with scripted seams; each run is checked for round bounds, phase order and chaining, repopulation timing, stop-only-at-fixed-point, returned == last round's scored labelling/cost/MRFs, optimality of the returned labelling under the returned model (reference DP on an independently computed likelihood table), and bitwise conformance of the whole label path with the fresh-state model.",
+                note="trusted: the seams are the only nondeterminism (RNG states verified untouched); the reference Gaussian log-density and DP; driver data sets are tiny (T'<=10, NW<=4), larger inputs are not covered"),
+    "C12": dict(engine=E2, cat="model_checking", ref="§4 C12",
+                technique="main-loop explorer with a statistics/optimiser-argument monitor against a two-pass fsum reference, on every round of every enumerated run",
+                text="On every round and cluster of every enumerated run (incl. post-repopulation rounds, biased and unbiased, scalar and matrix lambda) the statistics-phase output equals the reference mean/covariance of exactly the windows labelled k, the optimiser is called with that covariance, the user's lambda, W and N, and the stored MRF is the optimiser's answer for that cluster.",
+                note="trusted: reference statistics (math.fsum two-pass); singleton clusters under the unbiased estimator are skipped (undefined)"),
+    "C13": dict(engine=E3, cat="model_checking", ref="§3.3, §4 C13",
+                technique="BFS over operation histories on real ModelState objects (dedup on content+aliasing digest) with invariants on every live object, plus the same invariants at every phase boundary of enumerated main-loop runs",
+                text="All operation sequences up to depth 6 (thorough 8) over assign/copy/repopulate/statistics/optimise/relabel on real objects: partition invariant on every state produced, every earlier live state unchanged by every operation, deep copies independent under mutation of every mutable component; and the same at every phase boundary of every E2 run.",
+                note="trusted: the digest covers every field of ModelState/ClusterParameters/UserArguments listed in seams.py; a new mutable field would need adding"),
+    "C10": dict(engine=E1, cat="exploration", ref="§4 C10",
+                technique="complete enumeration of (T,W,N) and series-length tuples with injectively numbered bit patterns, compared as uint64",
+                text="Complete over the ranges in the property: all 2952 (T,W,N) triples with distinct bit patterns per cell (NaN payloads, inf, -0.0, denormals), all tuples of 1..6 series lengths for the joint form, split/pad round trip.",
+                note="trusted: NumPy views for bit comparison"),
+    "C11": dict(engine=E1, cat="exploration", ref="§4 C11",
+                technique="complete enumeration of n<=150 and all (N,W) with N<=10, W<=14 against definition-level index maps",
+                text="The property's quantifier is finite and is enumerated completely: compression round trips and closed-form index for n<=150, class partition for all 140 (N,W).",
+                note="trusted: reference maps written from the definition in refs.py"),
 }
 
 NOT_YET = "check not built yet in this session (work in progress; see DESIGN.md)"
